@@ -27,6 +27,11 @@ def configs(tier):
                 yield dict(name="%s-%s-%d" % (what, kind, p), what=what, backend="py", kind=kind, P=p,
                            fork=(kind == "lin"), cost=(p + 1) ** 3 * (3 if what in ("additive", "two") else 1),
                            split_forks=(6 if p >= 5 and what in ("additive", "two") else None))
+        for p in (2, 3):
+            # integer-valued function values (e.g. the spike counts of a PSTH): in the float replays numpy
+            # builds integer-typed arrays from them
+            yield dict(name="evalint-%s-%d" % (kind, p), what="eval", backend="py", kind=kind, P=p, integer=True,
+                       fork=(kind == "lin"), validate=40, cost=(p + 1) ** 3)
         # query / modify / query sequences on ONE object (results must never depend on what was asked
         # before: cached or lazily computed state that a later in-place operation forgets to refresh)
         for p in ((1, 2, 3) if tier == "quick" else (1, 2, 3, 4)):
@@ -91,7 +96,7 @@ def sub_interval(E, tag, ts, te):
 
 def program(E, cfg):
     ts, te = hx.edges(E)
-    f = mkfun(E, "f", cfg["P"], ts, te, cfg["kind"])
+    f = mkfun(E, "f", cfg["P"], ts, te, cfg["kind"], integer=cfg.get("integer", False))
     what = cfg["what"]
     with hx.quiet():
         if what == "interval":
